@@ -209,4 +209,54 @@ fn range_iter_h<T: 'static>(typed: bool, splice: bool) {
     core::mem::forget(v);
 }
 
+/// `nth` / `nth_back` of the range iterators (every skipping adapter - skip, step_by, rev().skip() - goes through
+/// them): the skipped elements were removed from the vector, so they are destroyed, each once (C03); the
+/// n-th remaining element is the one yielded (C02, C14).  n <= 2: core's default `nth` loops over `next()`.
+fn range_nth_h<T: 'static>(splice: bool, back: bool) {
+    ghost_init();
+    let (len, cap) = sym_state();
+    let mut v = unsafe { mk_vec::<dyn None, T>(0, len, cap, false, true) };
+    reg(&v, 0);
+    let esz = size_of::<T>();
+    let tid = TypeId::of::<T>();
+    let start = any_narrow();
+    let end = any_narrow();
+    kani::assume(start <= end && end <= len);
+    let n: usize = kani::any();
+    kani::assume(n <= 2);
+    let w = any_narrow();
+    kani::assume(w < len || len == 0);
+    if len > 0 { tok_init(TW, esz); tok_place(TW, base(0) + w * esz); }
+    let rem = end - start;
+    let skipped = if n < rem { n } else { rem };
+    macro_rules! body { ($d:expr) => {{
+        let mut d = $d;
+        let r = if back { d.nth_back(n) } else { d.nth(n) };
+        kani::assert(r.is_some() == (n < rem), "nth(n) yields an element exactly when more than n remain");
+        kani::assert(g().total_destroyed == skipped, "elements skipped by nth / nth_back of a range iterator are destroyed, each exactly once");
+        if let Some(item) = &r {
+            let pos = if back { end - 1 - n } else { start + n };
+            check_elem(item, esz, base(0) + pos * esz, tid);
+        }
+        let taken = if n < rem { n + 1 } else { rem };
+        let (ni, ne) = { let it = d.0.iter(); (it.index, it.end) };
+        kani::assert(if back { ni == start && ne == end - taken } else { ni == start + taken && ne == end }, "nth(n) advances its cursor by min(n + 1, remaining)");
+        if len > 0 && esz != 0 {
+            let in_skipped = if back { end - skipped <= w && w < end } else { start <= w && w < start + skipped };
+            kani::assert(g().t[TW].destroyed == if in_skipped { 1 } else { 0 }, "exactly the skipped elements are destroyed");
+        }
+        core::mem::forget(r);
+        core::mem::forget(d);
+    }}}
+    if !splice {
+        body!(v.drain(start..end))
+    } else {
+        body!(v.splice(start..end, super::k2_range::RawRepl { left: 0, report: 0, p: core::ptr::null_mut(), esz, tid }))
+    }
+    kani::cover!(n == 2 && rem > 3, "COV two skipped, more left");
+    kani::cover!(n >= rem && rem > 0, "COV skipping past the end");
+    kani::cover!(true, "REACHED");
+    core::mem::forget(v);
+}
+
 include!("k1_handles.inst.rs");
